@@ -57,6 +57,7 @@ type Contract struct {
 	Props     []string // properties this function's obligations serve (optional)
 	Fresh      bool    // `fresh`: the (first) result is an object allocated by this call
 	Ghost      string  // `ghosttrace p`: calls through the function-typed parameter p append their argument to the ghost sequence `trace` and answer vis(trace, arg)
+	TableKeys  map[string][]string // `tablekeys g a b c`: the package-level map g has exactly these (string) keys
 	Keywords   []string    // `keywords a b c`: exactly these string constants are compared with == in the function body
 	Synonyms   [][2]string // `synonyms a=b`: the comparisons with a and with b branch to the same code
 	FunctionOf string  // `function f`: the spec function f names the value this (deterministic) function returns
@@ -77,7 +78,7 @@ type ContractSet struct {
 
 var clauseKeywords = map[string]bool{"func": true, "use": true, "requires": true, "ensures": true,
 	"assigns": true, "decreases": true, "loop": true, "invariant": true, "trusted": true,
-	"inline": true, "noinline": true, "unroll": true, "props": true, "function": true, "ghosttrace": true, "hide": true, "fresh": true, "keywords": true, "synonyms": true}
+	"inline": true, "noinline": true, "unroll": true, "props": true, "function": true, "ghosttrace": true, "hide": true, "fresh": true, "keywords": true, "synonyms": true, "tablekeys": true}
 
 func splitLabel(s string) (string, string) {
 	s = strings.TrimSpace(s)
@@ -158,6 +159,13 @@ func (cs *ContractSet) loadFile(path string) error {
 			cur.Fresh = true
 		case "ghosttrace":
 			cur.Ghost = rest
+		case "tablekeys":
+			if fs := strings.Fields(rest); len(fs) >= 1 {
+				if cur.TableKeys == nil {
+					cur.TableKeys = map[string][]string{}
+				}
+				cur.TableKeys[fs[0]] = append(cur.TableKeys[fs[0]], fs[1:]...)
+			}
 		case "keywords":
 			cur.Keywords = append(cur.Keywords, strings.Fields(rest)...)
 		case "synonyms":
